@@ -307,48 +307,58 @@ fn normalize_label_fold_test() {
 pub fn split_off_front_matter<'s>(mut s: &'s str, delimiter: &str) -> Option<(&'s str, &'s str)> {
     s = trim_start_match(s, "\u{feff}");
 
-    if !s.starts_with(delimiter) {
-        return None;
-    }
-    let mut start = delimiter.len();
-    if s[start..].starts_with('\n') {
-        start += 1;
-    } else if s[start..].starts_with("\r\n") {
-        start += 2;
-    } else {
+    // The opening line is exactly the delimiter, and it is terminated.
+    let (line, mut end) = line_at(s, 0);
+    if line != delimiter || end == line.len() {
         return None;
     }
 
-    start += match s[start..]
-        .find(&("\n".to_string() + delimiter + "\r\n"))
-        .or_else(|| s[start..].find(&("\n".to_string() + delimiter + "\n")))
-        .or_else(|| s[start..].find(&("\n".to_string() + delimiter))) // delimiter followed by EOF
-    {
-        Some(n) => n + 1 + delimiter.len(),
-        None => return None,
-    };
-
-    if start == s.len() {
-        return Some((s, ""));
+    // The closing line is the first later line that is exactly the delimiter;
+    // it may be the unterminated last line of the input.
+    loop {
+        if end == s.len() {
+            return None;
+        }
+        let (line, next) = line_at(s, end);
+        end = next;
+        if line == delimiter {
+            break;
+        }
     }
 
-    start += if s[start..].starts_with('\n') {
-        1
-    } else if s[start..].starts_with("\r\n") {
-        2
-    } else {
-        return None;
-    };
+    // One blank line after the closing line is kept with the front matter.
+    let (line, next) = line_at(s, end);
+    if line.is_empty() {
+        end = next;
+    }
 
-    start += if s[start..].starts_with('\n') {
-        1
-    } else if s[start..].starts_with("\r\n") {
-        2
-    } else {
-        0
-    };
+    Some((&s[..end], &s[end..]))
+}
 
-    Some((&s[..start], &s[start..]))
+/// The line of `s` that starts at byte `start`, without its line ending (LF,
+/// CRLF or CR), and the offset at which the next line starts.
+fn line_at(s: &str, start: usize) -> (&str, usize) {
+    let bytes = s.as_bytes();
+    let mut end = start;
+    while end < bytes.len() && !is_line_end_char(bytes[end]) {
+        end += 1;
+    }
+    let next = if bytes[end..].starts_with(b"\r\n") {
+        end + 2
+    } else if end < bytes.len() {
+        end + 1
+    } else {
+        end
+    };
+    (&s[start..end], next)
+}
+
+/// The number of line endings (LF, CRLF or CR) in `s`.
+pub fn count_line_endings(s: &str) -> usize {
+    let bytes = s.as_bytes();
+    (0..bytes.len())
+        .filter(|&i| bytes[i] == b'\n' || (bytes[i] == b'\r' && bytes.get(i + 1) != Some(&b'\n')))
+        .count()
 }
 
 pub fn trim_start_match<'s>(s: &'s str, pat: &str) -> &'s str {
